@@ -55,6 +55,8 @@ def evalTextX (cc : CharClass) (budget : Nat) (src : Text) : String :=
         let s' := finishError s
         (Obs.error e s'.out).show ++ tail (liveCells s'.mem.heap)
       | .fault site => "FAULT " ++ site
-      | .budget _ => "BUDGET"
+      | .budget s =>
+        let s' := finishError s
+        "BUDGET" ++ tail (liveCells s'.mem.heap)
 
 end Nl
